@@ -1,7 +1,6 @@
 CONSTANTS
-  MCOps = {"IF", "ELSE", "ENDIF", "SWITCH", "ENDCASE", "REPT", "IRPN", "MACRO", "ENDM", "EXITM", "CALLM1",
-           "STRUCT", "ENDSTRUCT", "SAVE", "RESTORE", "ALIGN", "FATAL", "END", "SUBSTR"}
-  MCClasses = {"m1", "h31"}
+  MCOps = {"IF", "ENDIF", "REPT", "IRPN", "MACRO", "ENDM", "EXITM", "CALLM1", "STRUCT", "ENDSTRUCT", "ALIGN", "FATAL", "DEPHASE"}
+  MCClasses = {"m1"}
   MaxLen = 3
 SPECIFICATION Spec
 INVARIANTS TypeOK Total ExitDocumented ExitZeroBalanced WorkBounded
